@@ -40,6 +40,17 @@ var (
 	docKeys      = [nEps]string{"authorization_endpoint", "token_endpoint", "introspection_endpoint", "userinfo_endpoint", "revocation_endpoint", "end_session_endpoint", "jwks_uri", "device_authorization_endpoint"}
 	defaultPaths = [nEps]string{"authorize", "oauth/token", "oauth/introspect", "userinfo", "revoke", "end_session", "keys", "/device_authorization"}
 	customPaths  = [nEps]string{"/custom/auth", "custom/token", "/x/introspect", "me", "/tokens/revoke", "/logout", "/.well-known/jwks.json", "/custom/device"}
+	// further shapes of custom paths: trailing slash, no leading slash, double slash, nested
+	customShapes = [nEps][]string{
+		{"/custom/auth", "auth/", "/a//auth", "/v2/oidc/authorize/"},
+		{"custom/token", "/oauth/v2/token/", "/t//token"},
+		{"/x/introspect", "introspect/", "/a/b/c/introspect"},
+		{"me", "/me/", "/oidc/v1//userinfo"},
+		{"/tokens/revoke", "revoke/", "/a/b/c/revoke/"},
+		{"/logout", "logout/", "/session//end"},
+		{"/.well-known/jwks.json", "/oauth/v2/keys/", "keys//set"},
+		{"/custom/device", "device/", "/d/e/v/device"},
+	}
 )
 
 const (
